@@ -110,7 +110,7 @@ class C04(PropCheck):
             "{None,1,2,3,len+1} through extract(StackSlice), plus extract_since / extract_until (int and frame limits); "
             "non-trivial = outer or inner given; distinct = (levels, outer, inner, limit, api)")
     manifest = {
-        "text": "Lean: C04_since_none (extract_since(None) is the whole true stack, through all greenlet parents, for any number of segments), C04_main_greenlet_slice and C04_greenlet_slice (for every outer <= inner position — or None — the model of unwrap_stackslice returns exactly that contiguous sub-list of the true stack, in the main greenlet via the f_back walk and in a nested greenlet via the index / reverse-slice computation), C04_limit (a limit keeps the frames nearest the anchor: outer if only outer is given, else inner / the caller), C04_revSlice (Python's l[a:b:-1] for the arguments that occur is reverse(take/drop)). Tie: real stacks with every (outer, inner, limit) vs the model; the oracle is a hand walk over f_back and greenlet.parent.",
+        "text": "Lean: C04_since_none (extract_since(None) is the whole true stack, through all greenlet parents, for any number of segments), C04_main_greenlet_slice and C04_greenlet_slice (for every outer <= inner position — or None — the model of unwrap_stackslice returns exactly that contiguous sub-list of the true stack, in the main greenlet via the f_back walk and in a nested greenlet via the index / reverse-slice computation), C04_limit (a limit keeps the frames nearest the anchor: outer if only outer is given, else inner / the caller), C04_revSlice (Python's l[a:b:-1] for the arguments that occur is reverse(take/drop)). Tie: real stacks with every (outer, inner, limit) vs the model; the oracle is a hand walk over f_back and greenlet.parent. C04_other_thread_limit (outer running on another thread, found by the search over sys._current_frames(): the slice is outer followed by its callees and the limit keeps the frames nearest outer) with C04_F26_old_code_witness (the code before F26, whose search loop rebound inner_frame, kept the innermost frames instead); the other-thread leg of the harness parks a thread at several depths and compares every (outer position, limit) with the model.",
         "note": "One thread only (other threads' stacks are C07's). outer inward of inner, and limit = 0, are outside the property's quantifier: the model mirrors the code there but no theorem is claimed. That stackscope's own frames are excluded is checked on the real result (get_true_caller is not modelled).",
     }
     assumptions = ["f_back is None at the outermost frame of a greenlet (CPython)", "frame identity = position in the hand-walked stack"]
@@ -129,6 +129,8 @@ class C04(PropCheck):
                 continue
             seen.add(tuple(levels))
             out.append({"k": "stack", "levels": levels, "qseed": rng.randrange(1 << 30), "hostile": len(out) % 5 == 0})
+        for d in (0, 1, 3) if tier == "quick" else (0, 1, 2, 3, 5, 8):
+            out.append({"k": "otherthread", "depth": d, "levels": ["otherthread", str(d)]})
         return out
 
     def run_real(self, case):
@@ -154,7 +156,74 @@ class C04(PropCheck):
         finally:
             sys.modules.pop(name, None)
 
+    def run_other_thread(self, case):
+        """`outer` is a frame running on ANOTHER thread (parked at a known depth): every outer position of that thread's stack x
+        limits.  The slice is outer followed by its callees, the limit anchored at outer."""
+        import threading
+
+        import stackscope
+        from stackscope import StackSlice
+
+        ev, ready = threading.Event(), threading.Event()
+        depth = case["depth"]
+
+        def t_level(k):
+            if k == 0:
+                ready.set()
+                ev.wait(30)
+            else:
+                t_level(k - 1)
+
+        t = threading.Thread(target=t_level, args=(depth,), daemon=True)
+        t.start()
+        ready.wait(5)
+        import time as _t
+
+        _t.sleep(0.05)
+        probs: List[str] = []
+        qlist: List[dict] = []
+        outs: List[str] = []
+        try:
+            def ask():
+                full, segs = manual_walk()
+                idx = {id(f): i for i, f in enumerate(full)}
+                chain = []
+                f = sys._current_frames()[t.ident]
+                while f is not None:
+                    chain.append(f)
+                    f = f.f_back
+                for i, f in enumerate(chain):
+                    idx[id(f)] = 1000 + i
+                others = [[1000 + i for i in range(len(chain))]]
+                case["_segs"] = [[idx[id(f)] for f in seg] for seg in segs]
+                nthreads = len(sys._current_frames())
+                for o in range(len(chain)):
+                    for lim in (None, 1, 2, len(chain) + 3):
+                        st = stackscope.extract(StackSlice(outer=chain[o], limit=lim), with_contexts=False)
+                        fr = [idx.get(id(x.pyframe), -1) for x in st.frames]
+                        obs = "frames=[" + ",".join(map(str, fr)) + "]" + ("" if st.error is None else f" error={st.error!r}")
+                        want = [1000 + i for i in range(o, -1, -1)]
+                        if lim is not None:
+                            want = want[:lim]
+                        if fr != want or st.error is not None:
+                            probs.append(f"StackSlice(outer=<frame {o} of another thread's stack of {len(chain)}>, limit={lim}) gave {obs}; "
+                                         f"outer followed by its callees is {want}")
+                        outs.append(obs)
+                        qlist.append({"outer": 1000 + o, "inner": None, "limit": lim, "others": others, "threads": [1000]})
+                if nthreads != 2:
+                    # other threads exist: the search order is theirs too; the model is only given this one
+                    case["_extra_threads"] = nthreads - 2
+            ask()
+        finally:
+            ev.set()
+            t.join(5)
+        self._probs = probs
+        case["_queries"] = qlist
+        return "§".join(outs)
+
     def run_real_inner(self, case):
+        if case["k"] == "otherthread":
+            return self.run_other_thread(case)
         import stackscope
         from stackscope import StackSlice
 
@@ -275,7 +344,7 @@ class C04(PropCheck):
         return json.dumps(case["levels"])
 
     def stats(self, cases, reals):
-        d = {"stacks": len(cases), "queries": 0, "with_greenlets": 0, "with_generators": 0, "with_coroutines": 0, "max_depth": 0}
+        d = {"stacks": len(cases), "other_thread_stacks": sum(c["k"] == "otherthread" for c in cases), "queries": 0, "with_greenlets": 0, "with_generators": 0, "with_coroutines": 0, "max_depth": 0}
         for c in cases:
             d["queries"] += len(c.get("_queries", []))
             d["with_greenlets"] += "gl" in c["levels"]
